@@ -13,7 +13,8 @@ RULE = ("positive log-uniform r0 (1e-3..10 m), Cn2 (1e-18..1e-9), seeing (0.01..
         "composition equality (bit-equal), scaling exponents, closed-form single-layer reductions, loop-over-profiles. "
         "Non-trivial = non-default wavelength/band, or array input, or rank>=2 with axis != -1. Distinct = distinct "
         "canonical JSON of the case."
-        " Also: numpy.ma profiles with flag values under the mask vs the valid layers; the same pupil array edited in place between two photometry calls.")
+        " Also: numpy.ma profiles with flag values under the mask vs the valid layers; the same pupil array edited in place between two photometry calls."
+        " Law huge_record: records of 35 M (float32) and 42 M (float64) samples.")
 ASSUMPTIONS = ["round trips to 1e-12 relative (two pow() calls)", "0.314 constants: ratio within 1% and independent of the drawn cn2, h, v, lambda to 1e-12",
                "flux_to_magnitude accepts scalars only (it calls float())"]
 
